@@ -65,8 +65,30 @@ func draw(name string) uint64 {
 	if k > 0 {
 		name = name + "#" + strconv.Itoa(k)
 	}
-	return rp.Model[name]
+	if v, ok := rp.Model[name]; ok || randSeed == 0 {
+		return v
+	}
+	return seedHash(randSeed, name)
 }
+
+// randSeed != 0: translator-validation run; draws missing from the model are pseudo-random (same function as
+// the engine's concrete mode).
+var randSeed uint64
+
+func seedHash(seed uint64, name string) uint64 {
+	h := uint64(14695981039346656037)
+	s := fmt.Sprintf("%d:%s", seed, name)
+	for i := 0; i < len(s); i++ {
+		h ^= uint64(s[i])
+		h *= 1099511628211
+	}
+	return h
+}
+
+var (
+	Observed []string
+	Reached  []string
+)
 
 func U8(name string) uint8   { return uint8(draw(name)) }
 func U16(name string) uint16 { return uint16(draw(name)) }
@@ -91,6 +113,9 @@ func AbstractBytes(name string, n int) []byte { return make([]byte, n) }
 // Range draws an int in [lo,hi].
 func Range(name string, lo, hi int) int {
 	v := Int(name)
+	if randSeed != 0 && hi >= lo && (v < lo || v > hi) {
+		v = lo + int(uint64(v)%uint64(hi-lo+1))
+	}
 	Assume(lo <= v && v <= hi)
 	return v
 }
@@ -106,6 +131,9 @@ func Pick(name string, n int) int {
 		}
 	}
 	pickPos++
+	if randSeed != 0 {
+		return int(seedHash(randSeed, "ctl#"+strconv.Itoa(pickPos-1)) % uint64(n))
+	}
 	v := int(draw("pick:" + name))
 	if v < 0 || v >= n {
 		return 0
@@ -171,8 +199,8 @@ func BytesEq(a, b []byte) bool {
 }
 func StrEq(a, b string) bool { return a == b }
 
-func Reach(label string)             {}
-func Observe(label string, v uint64) {}
+func Reach(label string)             { Reached = append(Reached, label) }
+func Observe(label string, v uint64) { Observed = append(Observed, label+"="+strconv.FormatUint(v, 10)) }
 func Symbolic() bool                 { return false }
 func Native() bool                   { return true }
 func Tier() int                      { load(); return tier }
@@ -245,6 +273,34 @@ func Catch(f func()) (panicked bool) {
 	}()
 	f()
 	return false
+}
+
+// RunValidate runs the harness natively for seeds 1..n with pseudo-random inputs and returns a JSON summary that
+// bin/vcheck compares with the engine's concrete runs on the same seeds (translator validation).
+func RunValidate(h func(), n int) string {
+	type vres struct {
+		Seed     int      `json:"seed"`
+		Status   string   `json:"status"`
+		Failures []string `json:"failures"`
+		Observes []string `json:"observes"`
+		Reached  []string `json:"reached"`
+	}
+	var out []vres
+	for s := 1; s <= n; s++ {
+		randSeed = uint64(s)
+		Observed, Reached = nil, nil
+		fails, diverged := RunNative(h)
+		r := vres{Seed: s, Status: "ok", Failures: fails, Observes: Observed, Reached: Reached}
+		if diverged {
+			r.Status = "infeasible"
+		} else if len(fails) > 0 {
+			r.Status = "violation"
+		}
+		out = append(out, r)
+	}
+	randSeed = 0
+	b, _ := json.Marshal(out)
+	return string(b)
 }
 
 // RunNative runs a harness natively and reports (failures, diverged).
